@@ -122,8 +122,9 @@ class Sandbox:
         self.group_cap = group_cap
         self.max_report_cases = max_report_cases  # per run(): a tree this broken needs no more witnesses
         self.group_hits = {}
+        self.risky_of = None
 
-    def run(self, cases, fn, make_case, setup=None, use_fork=True, group_of=None):
+    def run(self, cases, fn, make_case, setup=None, use_fork=True, group_of=None, risky_of=None):
         """cases: list; fn(ctx, case, local) -> truthy to end the process after this case;
         make_case(case) -> replayable batch dict; setup() -> ctx (inside the grandchild);
         group_of(case) -> str."""
@@ -131,6 +132,7 @@ class Sandbox:
         i = 0
         forks = 0
         group_of = group_of or (lambda c: "all")
+        self.risky_of = risky_of  # cases expected to be able to kill the process run in one of their own
         while i < n:
             if self.deadline is not None and time.time() > self.deadline:
                 self.res.count("cases_skipped_time_cap", n - i)
@@ -163,14 +165,18 @@ class Sandbox:
             if sum(self.group_hits.values()) >= self.max_report_cases:
                 local.count("cases_skipped_after_report_cap", len(cases) - idx)
                 return len(cases), "report-cap"
+            risky = bool(self.risky_of and self.risky_of(case)) and shm is not None
+            if risky and done:
+                return idx, "isolate"  # results so far are handed over before the risky case starts
             if shm is not None:
                 struct.pack_into("qq", shm, 0, idx, done)
-            stop = fn(ctx, case, local)
+            stop = fn(ctx, case, local) or (risky and "isolated")
             done += 1
             if self.watch.dirty():
-                reps = self.watch.new_reports()
+                reps = self.watch.new_reports()  # empty for mere runtime warnings (failed huge malloc)
                 report_violations(local, reps, make_case(case))
-                self.group_hits[grp] = self.group_hits.get(grp, 0) + 1
+                if reps:
+                    self.group_hits[grp] = self.group_hits.get(grp, 0) + 1
                 if _needs_fresh_process(reps) and shm is not None:
                     return idx + 1, "report"
             if stop:
